@@ -27,12 +27,12 @@ ASSUMPTIONS = ASSUMPTIONS_TRANSPORT + [
     "self-test); qlog timestamps read the real clock and are not compared",
 ]
 COMPONENTS = COMPONENTS_TRANSPORT
-PLAN = plan(60, 900, ["benign", "lossy", "lossy", "hostile", "resumed"])
+PLAN = plan(60, 900, ["benign", "lossy", "lossy", "hostile", "resumed", "h3"])
 
 FAULTS = ("drop", "dup", "delay", "blackout", "timer-late", "clock", "rebind")
 PROFILES = {
     "benign": {"fault_free": True},
-    "lossy": {"faults": FAULTS, "allow_vn": True, "retry_p": 0.15},
+    "lossy": {"faults": FAULTS, "allow_vn": True, "retry_p": 0.15, "foreign_tp_p": 0.3},
     "hostile": {"faults": FAULTS, "hostile": True, "allow_vn": True, "retry_p": 0.15},
 }
 
@@ -130,8 +130,44 @@ def run_resumed_pair(seed, replay):
     return out
 
 
+def run_h3_pair(seed, tier, replay):
+    """HTTP/3 sessions (requests, responses, pushes, trailers, WebTransport, QPACK blocking under every
+    chunking and reordering of checks.c14) with the qlog trace detached and attached: same deliveries, same
+    events, and nothing raised because of logging."""
+    from checks import c14
+
+    outs = []
+    for flag in (False, True):
+        c14.FORCE_LOGGER[0] = flag
+        try:
+            outs.append(c14.run_one(seed, tier=tier, variant="random", replay=replay))
+        finally:
+            c14.FORCE_LOGGER[0] = None
+    off, on = outs
+    out = on
+    out.violation = None
+    ka = (off.violation or {}).get("oracle"), (off.violation or {}).get("discriminator")
+    kb = (on.violation or {}).get("oracle"), (on.violation or {}).get("discriminator")
+    von = outs[1].violation if False else None
+    if kb != ka:
+        v = Violation("c20.h3-differs", "with-trace:%s|%s/without:%s|%s" % (kb[0], (kb[1] or "")[:60], ka[0],
+                                                                          (ka[1] or "")[:60]),
+                      "the same HTTP/3 session and delivery schedules end differently with the qlog trace attached "
+                      "(%s) than without it (%s)" % (kb, ka))
+        out.violation = violation_dict(v)
+    elif off.summary.get("digest") != on.summary.get("digest"):
+        v = Violation("c20.h3-differs", "digest", "the same HTTP/3 session delivers different events with the qlog "
+                      "trace attached than without it")
+        out.violation = violation_dict(v)
+    out.summary = dict(on.summary, reason="violation" if out.violation else "done")
+    out.nontrivial = True
+    return out
+
+
 def run_one(seed, tier="quick", variant=None, replay=None):
     variant = variant or "lossy"
+    if variant == "h3":
+        return run_h3_pair(seed, tier, replay)
     if variant == "resumed":
         return run_resumed_pair(seed, replay)
     prof = PROFILES[variant]
